@@ -163,7 +163,14 @@ fn display_all_exported_vars(
         if variable.is_exported() {
             let value = variable.value().try_get_cow_str(context.shell);
             if let Some(value) = value {
-                writeln!(context.stdout(), "declare -x {name}=\"{value}\"")?;
+                writeln!(
+                    context.stdout(),
+                    "declare -x {name}={}",
+                    brush_core::escape::force_quote(
+                        value.as_ref(),
+                        brush_core::escape::QuoteMode::DoubleQuote
+                    )
+                )?;
             } else {
                 writeln!(context.stdout(), "declare -x {name}")?;
             }
